@@ -798,7 +798,9 @@ def unit_gtf_derived_key(U):
             U.prove(base + "#p%d" % p.index, "every inferred feature is inserted under the key _id_handler returned for that very feature (one call per inferred feature, in order)", p.pc, z3.And(*goals), {}, replay=replay)
 
 
-UNITS = [("gtf_derived_key", unit_gtf_derived_key), ("bounded.lookup_history", unit_bounded_lookup_history), ("schema", unit_schema), ("step_key", unit_step_key), ("gtf_spec", unit_gtf_spec), ("default_spec", unit_default_spec), ("id_handler", unit_id_handler), ("autoid", unit_autoid), ("getitem", unit_getitem), ("bounded", unit_bounded)]
+from pyvc.harness import dep_unit as _dep_unit
+
+UNITS = [("dep.counters", _dep_unit("C10", "unit_update", "C10", "C04.dep", "the counters that number id-less features are stored and reloaded (the C10 obligations on _DBCreator.__init__ / _finalize / FeatureDB.__init__ / update that key numbering across update() calls rests on), discharged in this check as well")), ("gtf_derived_key", unit_gtf_derived_key), ("bounded.lookup_history", unit_bounded_lookup_history), ("schema", unit_schema), ("step_key", unit_step_key), ("gtf_spec", unit_gtf_spec), ("default_spec", unit_default_spec), ("id_handler", unit_id_handler), ("autoid", unit_autoid), ("getitem", unit_getitem), ("bounded", unit_bounded)]
 
 
 def replay_file(doc):
